@@ -665,7 +665,7 @@ def apply_contract(I, c, ex, args, kwargs):
         P.assume(t)
     srcs = [s for _, s in c.ensures_] + [e for (_, _, e, _) in c.raises_] + [w for (_, w, _, _) in c.raises_]
     old = I.snapshot_old(srcs, loc, G, ex.cls)
-    P.event('call', qn)
+    P.event('call', qn, dict(loc))      # the arguments as bound to the callee's parameters
     for fn in getattr(c, 'effects_', []):
         fn(P, loc)
     # exceptional outcomes
